@@ -95,7 +95,7 @@ func (f *FlowMod) MarshalBinary() (data []byte, err error) {
 	n += 4
 	binary.BigEndian.PutUint32(bytes[n:], f.OutPort)
 	n += 4
-	binary.BigEndian.PutUint32(bytes[n:], f.OutPort)
+	binary.BigEndian.PutUint32(bytes[n:], f.OutGroup)
 	n += 4
 	binary.BigEndian.PutUint16(bytes[n:], f.Flags)
 	n += 2
